@@ -886,6 +886,20 @@ class Engine(object):
             self.stats['paths'] += 1
             ENG = self
             status = 'completed'
+            prof = self.stats['paths'] <= 3
+            if prof:
+                import sys as _sys
+
+                def _tracer(frame, event, arg, _fs=self.functions):
+                    if event == 'call':
+                        fnm = frame.f_code.co_filename
+                        if '/nautilus/' in fnm and '/verif/' not in fnm:
+                            _fs.add('%s:%s' % (
+                                fnm.split('/nautilus/', 1)[1],
+                                frame.f_code.co_qualname
+                                if hasattr(frame.f_code, 'co_qualname')
+                                else frame.f_code.co_name))
+                _sys.setprofile(_tracer)
             try:
                 fn(self)
             except PathAbort:
@@ -898,6 +912,8 @@ class Engine(object):
                 self.notes.append('NOT-MODELLED: %s' % (e,))
             finally:
                 ENG = None
+                if prof:
+                    _sys.setprofile(None)
             self.stats[status] += 1
             if self.uncertain:
                 self.notes.append('INCONCLUSIVE: unknown during a decision')
@@ -924,6 +940,7 @@ class Engine(object):
         d['notes'] = sorted(set(self.notes))[:50]
         d['samples'] = self.samples
         d['labels'] = self.labels
+        d['functions_entered'] = sorted(self.functions)
         return d
 
 
